@@ -350,7 +350,79 @@ def rule_R4(text, log):
         text = text[:mm.start()] + after + text[cl + 1:]
 
 
-RULES = {
+def rule_R5(text, log):
+    """for PAT in EXPR { B }  ==>  { let mut it__ = EXPR; loop { match it__.next() { Some(PAT) => { B }, None => { break; } } } }
+    (the language reference's desugaring of `for`, for EXPR that already is an iterator)"""
+    n = 0
+    while True:
+        m = mask(text)
+        mm = None
+        for cand in re.finditer(r'\bfor\s+', m):
+            # skip `for p in &mut V` (R4) and ranges
+            j = cand.end()
+            k = m.find(' in ', j)
+            if k < 0:
+                continue
+            e = k + 4
+            b = e
+            while b < len(m) and m[b] != '{':
+                if m[b] in '([':
+                    b = match_close(m, b)
+                b += 1
+            expr = text[e:b].strip()
+            if expr.startswith('&') or '..' in expr:
+                continue
+            mm = (cand.start(), j, k, e, b)
+            break
+        if mm is None:
+            return text
+        s0, j, k, e, b = mm
+        cl = match_close(m, b)
+        pat, expr, body = text[j:k].strip(), text[e:b].strip(), text[b + 1:cl]
+        it = 'it__' if n == 0 else 'it__%d' % n
+        n += 1
+        after = '{ let mut %s = %s; loop { match %s.next() { Some(%s) => {%s}, None => { break; } } } }' % (it, expr, it, pat, body)
+        log.append(dict(rule='R5', before='for %s in %s { ... }' % (pat, expr), after='{ let mut %s = %s; loop { match %s.next() { Some(%s) => { ... }, None => { break; } } } }' % (it, expr, it, pat)))
+        text = text[:s0] + after + text[cl + 1:]
+
+
+def rule_R14(text, log):
+    """Name the tail expression of a function body:  { S; E }  ==>  { S; let ret__ = E; ret__ }
+    (so that ghost text can follow the last call; evaluation order and value are unchanged)."""
+    m = mask(text)
+    o = m.index('{')
+    c = match_close(m, o)
+    # last ';' at depth 1
+    depth, last = 0, o
+    i = o
+    while i < c:
+        ch = m[i]
+        if ch in '([{' and i != o:
+            i = match_close(m, i)
+        elif ch == ';':
+            last = i
+        i += 1
+    tail = text[last + 1:c]
+    if not tail.strip():
+        return text
+    # the tail must be one expression: no depth-1 block followed by further tokens
+    tm = mask(tail)
+    j = 0
+    while j < len(tm):
+        if tm[j] in '([':
+            j = match_close(tm, j)
+        elif tm[j] == '{':
+            j = match_close(tm, j)
+            rest = tm[j + 1:].strip()
+            if rest and not rest.startswith('.') and not rest.startswith('else') and not rest.startswith('?'):
+                raise LostAnchor('R14: tail of body is not a single expression')
+        j += 1
+    new = ' let ret__ = ' + tail.strip() + '; ret__\n'
+    log.append(dict(rule='R14', before=tail.strip()[:120], after='let ret__ = <tail>; ret__'))
+    return text[:last + 1] + new + text[c:]
+
+
+RULES = {'R5': rule_R5,
     'R1': rule_R1, 'R2': rule_R2, 'R3': rule_R3, 'R3b': rule_R3b, 'R4': rule_R4,
     'R6': rule_R6, 'R6b': rule_R6b, 'R6c': rule_R6c,
 }
